@@ -498,6 +498,14 @@ func (e *Encoder) assignLocs(env *Env, ct *Contract) []assignLoc {
 				all = true
 				part = strings.TrimSuffix(part, ".*")
 			}
+			if strings.HasPrefix(part, "hashstate(") && strings.HasSuffix(part, ")") {
+				// the ghost absorb state of a hash.Hash
+				sub := &Clause{Kind: "assigns", Text: part[10 : len(part)-1], File: cl.File, Line: cl.Line}
+				v := env.trClauseVal(sub)
+				obj, _ := e.hashObjOf(v, env.state())
+				out = append(out, assignLoc{prefix: "ghost:hash#st", idx: obj, typ: types.Typ[types.Int], text: cl.Text})
+				continue
+			}
 			isMem := false
 			if strings.HasPrefix(part, "mem(") && strings.HasSuffix(part, ")") {
 				isMem = true
@@ -556,6 +564,11 @@ func (e *Encoder) havocLoc(st *State, al assignLoc) {
 		}
 		arr := e.get(st, al.prefix, srt)
 		e.set(st, al.prefix, c.Store(arr, al.idx, c.Fresh("hv."+al.prefix, srt.E)))
+		return
+	}
+	if al.prefix == "ghost:hash#st" {
+		arr := e.get(st, al.prefix, Arr(RefS, IntS))
+		e.set(st, al.prefix, c.Store(arr, al.idx, c.Fresh("hv.hashstate", IntS)))
 		return
 	}
 	for _, cp := range leafComps(al.typ) {
@@ -1215,6 +1228,22 @@ func init() {
 			}
 			return env.mkBool(c.And(c.IsRoot(x.Base), c.IntLe(e.A0, c.RootID(x.Base))))
 		},
+		"isnewobj": func(env *Env, n *ast.CallExpr, args []*SVal) *SVal {
+			// isnewobj(p): p points to an object allocated by this call (the caller may then rely on
+			// nothing else reaching it)
+			e := env.e
+			c := e.c
+			x := args[0]
+			if env.callSite {
+				// the result lies in (or is) an object with a fresh identity of the caller's
+				r := e.newAlloc()
+				if pt, ok := x.Typ.Underlying().(*types.Pointer); ok && e.pure == 0 && len(e.loopRefSyms) == 0 {
+					e.tracked = append(e.tracked, trackedObj{x.T, pt.Elem()})
+				}
+				return env.mkBool(c.InObject(x.T, r, 3))
+			}
+			return env.mkBool(c.NewObject(x.T, e.A0, 3))
+		},
 		"window": func(env *Env, n *ast.CallExpr, args []*SVal) *SVal {
 			// window(s, t, lo, hi): s is exactly t[lo:hi], also when empty (same array, same start)
 			c := env.e.c
@@ -1276,6 +1305,25 @@ func init() {
 			key := args[1]
 			mem := e.get(env.state(), "mem:bv8", Arr(RefS, Arr(BV64, BV8)))
 			return &SVal{K: KScalar, Typ: types.Typ[types.Int], T: e.c.App("hKeyed", IntS, e.fnTag(fn), e.c.Select(mem, key.Base), key.Off, key.Len)}
+		},
+		"aesKeyByte": func(env *Env, n *ast.CallExpr, args []*SVal) *SVal {
+			// byte k of the AES key a cipher.Block was created with (ghost of aes.NewCipher)
+			e := env.e
+			return &SVal{K: KScalar, Typ: types.Typ[types.Uint8], T: e.c.Select(e.c.App("aesKeyOf", Arr(BV64, BV8), args[0].T), e.c.Resize(args[1].T, 64, true))}
+		},
+		"hDigestByte": func(env *Env, n *ast.CallExpr, args []*SVal) *SVal {
+			e := env.e
+			return &SVal{K: KScalar, Typ: types.Typ[types.Uint8], T: e.c.Select(e.c.App("hDigest", Arr(BV64, BV8), args[0].T), e.c.Resize(args[1].T, 64, true))}
+		},
+		"unchanged": func(env *Env, n *ast.CallExpr, args []*SVal) *SVal {
+			// unchanged(x): every field of the addressable value x (slice and string fields: their
+			// headers) holds the value it had on entry
+			e := env.e
+			if n == nil {
+				panic(contractError{fmt.Errorf("unchanged() is only available in contract clauses")})
+			}
+			a := env.addr(n.Args[0])
+			return env.mkBool(e.deepEq(e.load(env.st, a), e.load(env.old, a)))
 		},
 		"isPlainHash": func(env *Env, n *ast.CallExpr, args []*SVal) *SVal {
 			// the hash.Hash is not one of the module's wrapper types
@@ -1717,7 +1765,7 @@ func (e *Encoder) cryptBlocks(fr *frame, args []*SVal, ci ssa.CallInstruction, r
 // outputs and nothing else is assumed.
 
 // ghost functions of the prelude that spec function bodies may call (they need no syntax)
-var ghostSSA = map[string]bool{"hState": true, "hInit": true, "hSizeOf": true, "hAbsorb": true, "hAbsorbStr": true, "hAbsorbByte": true, "hIsDigest": true, "hmacKeyed": true, "hmacKeyedDigest": true}
+var ghostSSA = map[string]bool{"hState": true, "hInit": true, "hSizeOf": true, "hAbsorb": true, "hAbsorbStr": true, "hAbsorbByte": true, "hIsDigest": true, "hmacKeyed": true, "hmacKeyedDigest": true, "aesKeyByte": true, "hDigestByte": true}
 
 // constFunc: the function named by the constant string argument i of a ghost call.
 func (env *Env) constFunc(n *ast.CallExpr, args []*SVal, i int) *ssa.Function {
@@ -2296,4 +2344,50 @@ func (ct *Contract) dynOption(w *World, param string) types.Type {
 		}
 	}
 	return nil
+}
+
+// deepEq: component-wise equality of two values of the same type (slices and strings by header).
+func (e *Encoder) deepEq(a, b *SVal) *Term {
+	c := e.c
+	if a == nil || b == nil {
+		return c.True()
+	}
+	var parts []*Term
+	eq := func(x, y *Term) {
+		if x != nil && y != nil {
+			parts = append(parts, c.Eq(x, y))
+		}
+	}
+	switch a.K {
+	case KStruct, KTuple:
+		for i := range a.Fields {
+			if i < len(b.Fields) {
+				parts = append(parts, e.deepEq(a.Fields[i], b.Fields[i]))
+			}
+		}
+	case KArray:
+		if a.T != nil {
+			eq(a.T, b.T)
+		}
+		for i := range a.Fields {
+			if i < len(b.Fields) {
+				parts = append(parts, e.deepEq(a.Fields[i], b.Fields[i]))
+			}
+		}
+	case KSlice:
+		eq(a.Base, b.Base)
+		eq(a.Off, b.Off)
+		eq(a.Len, b.Len)
+		eq(a.Cap, b.Cap)
+	case KString:
+		eq(a.Base, b.Base)
+		eq(a.Off, b.Off)
+		eq(a.Len, b.Len)
+	case KIface, KFunc:
+		eq(a.Tag, b.Tag)
+		eq(a.T, b.T)
+	default:
+		eq(a.T, b.T)
+	}
+	return c.And(parts...)
 }
